@@ -25,7 +25,7 @@ InMro(o, name) == \E j \in 1..Len(o.mro) : o.mro[j] = name
 ExcKey(phase, o) ==
   IF o.st = "exc" THEN phase \o "-exc:" \o o.cls \o "@" \o o.site
   ELSE IF o.st = "timeout" THEN phase \o "-timeout@" \o o.site
-  ELSE phase \o "-bad:" \o o.msg
+  ELSE phase \o "-bad:" \o (IF Has(o, "msg") THEN o.msg ELSE "")
 
 V(check, verdict, detail) == [check |-> check, verdict |-> verdict, detail |-> detail]
 
